@@ -260,67 +260,10 @@ func checkC06(c *Check) {
 		c.Undecidedf("ANCHOR", "pipeline", "-", "only %d pipeline functions found", len(fns))
 		return
 	}
-	nCalls := 0
-	for _, f := range fns {
-		eachInstr(f, func(_ *ssa.BasicBlock, i ssa.Instruction) {
-			// go / defer with error results are discarded by construction
-			var call *ssa.Call
-			switch x := i.(type) {
-			case *ssa.Call:
-				call = x
-			default:
-				return
-			}
-			sig := call.Call.Signature()
-			ei := errorResultIndex(sig)
-			if ei < 0 {
-				return
-			}
-			if _, isB := call.Call.Value.(*ssa.Builtin); isB {
-				return
-			}
-			if o := calleeObj(call); o != nil {
-				if rt := recvType(o); rt != nil && (typeIs(rt, "bytes", "Buffer") || typeIs(rt, "strings", "Builder")) {
-					return // documented to always return a nil error
-				}
-			}
-			nCalls++
-			callee := "dynamic"
-			if o := calleeObj(call); o != nil {
-				callee = shortObj(o)
-			} else if sc := staticCallee(call); sc != nil {
-				callee = fnName(sc)
-			}
-			key := fmt.Sprintf("%s|%s", fnName(f), callee)
-			ev := errValueOf(call, ei)
-			if ev == nil {
-				c.Flagf("ERR-FLOW", key, p.pos(call.Pos()), "the error returned by %s is discarded", callee)
-				return
-			}
-			u := classifyErrUses(ev)
-			switch {
-			case len(u.nilTests) > 0:
-				bad := ""
-				for _, t := range u.nilTests {
-					if ok, why := failureRegionOK(t.Parent(), t); !ok {
-						bad = why
-					}
-				}
-				if bad != "" {
-					c.Flagf("ERR-FLOW", key, p.pos(call.Pos()), "error of %s is tested but %s", callee, bad)
-				} else {
-					c.Okf("ERR-FLOW", key, p.pos(call.Pos()), "error is nil-tested; the failure branch ends in a non-nil error return without rejoining the success path")
-				}
-			case u.returned:
-				c.Okf("ERR-FLOW", key, p.pos(call.Pos()), "error flows to a return operand")
-			case len(u.fieldStore) > 0:
-				ok, why := fieldErrChecked(p, f, u.fieldStore[0])
-				c.Cond(ok, "ERR-FLOW", key, p.pos(call.Pos()), "error is stored in a struct field whose later load is nil-tested with a failing branch", why)
-			default:
-				c.Flagf("ERR-FLOW", key, p.pos(call.Pos()), "the error returned by %s is neither returned nor tested against nil (uses: %d calls, %d other)", callee, len(u.passed), u.other)
-			}
-		})
-	}
+	// a failed conversion or read must end in an error, not in the runtime's
+	// "concurrent map writes": what the per-file goroutines share is written under a lock
+	c07Captures(c, fns)
+	nCalls := errFlow(c, "ERR-FLOW", fns, false)
 	c.Counts["error_returning_calls"] = nCalls
 	c06NoModelOnError(c, fns)
 	c06NamesFile(c)
@@ -913,4 +856,80 @@ func isSemaphoreChan(v ssa.Value) bool {
 		return true
 	}
 	return false
+}
+
+// errFlow (R-FLOW): the error result of every call made by fns is returned,
+// tested with a failing branch, or kept in a checked field. With repoOnly, only
+// calls of repository functions are obligations (the walk of a generator: an
+// error of a nested visit that is logged and skipped leaves partial output
+// behind a success).
+func errFlow(c *Check, rule string, fns []*ssa.Function, repoOnly bool) int {
+	p := c.P
+	nCalls := 0
+	for _, f := range fns {
+		eachInstr(f, func(_ *ssa.BasicBlock, i ssa.Instruction) {
+			// go / defer with error results are discarded by construction
+			var call *ssa.Call
+			switch x := i.(type) {
+			case *ssa.Call:
+				call = x
+			default:
+				return
+			}
+			sig := call.Call.Signature()
+			ei := errorResultIndex(sig)
+			if ei < 0 {
+				return
+			}
+			if _, isB := call.Call.Value.(*ssa.Builtin); isB {
+				return
+			}
+			if o := calleeObj(call); o != nil {
+				if rt := recvType(o); rt != nil && (typeIs(rt, "bytes", "Buffer") || typeIs(rt, "strings", "Builder")) {
+					return // documented to always return a nil error
+				}
+			}
+			if repoOnly {
+				if sc := staticCallee(call); sc == nil || !isRepoFn(sc) {
+					return
+				}
+			}
+			nCalls++
+			callee := "dynamic"
+			if o := calleeObj(call); o != nil {
+				callee = shortObj(o)
+			} else if sc := staticCallee(call); sc != nil {
+				callee = fnName(sc)
+			}
+			key := fmt.Sprintf("%s|%s", fnName(f), callee)
+			ev := errValueOf(call, ei)
+			if ev == nil {
+				c.Flagf(rule, key, p.pos(call.Pos()), "the error returned by %s is discarded", callee)
+				return
+			}
+			u := classifyErrUses(ev)
+			switch {
+			case len(u.nilTests) > 0:
+				bad := ""
+				for _, t := range u.nilTests {
+					if ok, why := failureRegionOK(t.Parent(), t); !ok {
+						bad = why
+					}
+				}
+				if bad != "" {
+					c.Flagf(rule, key, p.pos(call.Pos()), "error of %s is tested but %s", callee, bad)
+				} else {
+					c.Okf(rule, key, p.pos(call.Pos()), "error is nil-tested; the failure branch ends in a non-nil error return without rejoining the success path")
+				}
+			case u.returned:
+				c.Okf(rule, key, p.pos(call.Pos()), "error flows to a return operand")
+			case len(u.fieldStore) > 0:
+				ok, why := fieldErrChecked(p, f, u.fieldStore[0])
+				c.Cond(ok, rule, key, p.pos(call.Pos()), "error is stored in a struct field whose later load is nil-tested with a failing branch", why)
+			default:
+				c.Flagf(rule, key, p.pos(call.Pos()), "the error returned by %s is neither returned nor tested against nil (uses: %d calls, %d other)", callee, len(u.passed), u.other)
+			}
+		})
+	}
+	return nCalls
 }
